@@ -551,6 +551,92 @@ def WFPieces : Option Char → List Piece → Prop
   | prev, .lit _ :: r => prev ≠ some '\'' ∧ WFPieces (some '\'') r
   | prev, .ident q _ :: r => isQuote q = true ∧ prev ≠ some q ∧ WFPieces (some q) r
 
+/-! ## `Param.eval` and the converters: what a bound parameter becomes; what an inline constant denotes (SQLite) -/
+
+/-- the scalar Python values a query can supply (floats, Decimals and timedeltas are tied by the query oracle only) -/
+inductive SV
+  | none | bool (b : Bool) | int (i : Int) | str (s : Str) | bytes (b : List Nat)
+  | date (x : PDate) | datetime (x : PDate) (t : PTime) | time (t : PTime)
+  deriving Repr, Inhabited
+
+/-- an element a query variable can hold or contain: a scalar, or an entity instance (seen through `_get_raw_pkval_()`) -/
+inductive Elem
+  | scalar (v : SV)
+  | entity (pk : List SV)
+  deriving Repr, Inhabited
+
+/-- the value of an external variable of the query: one element, or a tuple / RawSQL.values / `_get_items()` sequence -/
+inductive VarVal
+  | one (e : Elem)
+  | seq (es : List Elem)
+  deriving Repr, Inhabited
+
+/-- `Param.eval` up to the converter:
+      varkey, i, j = param.paramkey; value = values[varkey]
+      if i is not None: value = value[i]                      (tuple / RawSQL.values / _get_items())
+      if j is not None: value = value._get_raw_pkval_()[j]    (asserted to be an entity)
+    `none`: KeyError / IndexError / failed assertion. -/
+def paramEvalRaw (values : Nat → Option VarVal) (varkey : Nat) (i j : Option Nat) : Option SV :=
+  match values varkey with
+  | Option.none => Option.none
+  | some v =>
+    let e : Option Elem := match i, v with
+      | Option.none, .one e => some e
+      | Option.none, .seq _ => Option.none         -- a whole sequence is never bound as one parameter
+      | some i, .seq es => es[i]?
+      | some _, .one _ => Option.none              -- `assert False, t`
+    match e, j with
+    | some (.scalar sv), Option.none => some sv
+    | some (.entity pk), some j => pk[j]?
+    | _, _ => Option.none
+
+/-- what a SQLite connection stores / compares for a bound value -/
+inductive DB
+  | null | int (i : Int) | text (s : Str) | blob (b : List Nat)
+  deriving Repr, Inhabited, DecidableEq
+
+/-- `converter.py2sql(value)` of the SQLite converters followed by sqlite3's own adaptation of the Python value:
+    str, int, bytes as they are, bool as 0/1, date -> `isoformat()`, datetime -> `datetime2timestamp`, time -> `isoformat()` -/
+def sqliteBind : SV → DB
+  | .none => .null
+  | .bool b => .int (if b then 1 else 0)
+  | .int i => .int i
+  | .str s => .text s
+  | .bytes b => .blob b
+  | .date x => .text (dateStr x)
+  | .datetime x t => .text (timestampStr x t)
+  | .time t => .text (isoTime t)
+
+/-- the inline literal `SQLiteValue.__str__` renders for the same value when it is written as a constant in the query -/
+def sqliteConstText (style : Style) : SV → Option Str
+  | .none => some (valueStr .sqlite style .none)
+  | .bool b => some (valueStr .sqlite style (.bool b))
+  | .int i => some (valueStr .sqlite style (.int i))
+  | .str s => some (valueStr .sqlite style (.str s))
+  | .bytes b => some (valueStr .sqlite style (.bytes b))
+  | .date x => temporalStr .sqlite style (.date x)
+  | .datetime x t => temporalStr .sqlite style (.datetime x t)
+  | .time t => temporalStr .sqlite style (.time t)
+
+/-- the value a SQLite literal denotes: `null`, a string literal, a blob literal, an integer literal -/
+def sqliteRead (t : Str) : Option DB :=
+  match t with
+  | [] => Option.none
+  | c :: r =>
+    if c = 'n' then (if r = ['u', 'l', 'l'] then some .null else Option.none)
+    else if c = '\'' then
+      match lexQuoted '\'' (c :: r) with
+      | some (v, []) => some (.text v)
+      | _ => Option.none
+    else if c = 'X' then
+      match lexBlob (c :: r) with
+      | some (b, []) => some (.blob b)
+      | _ => Option.none
+    else
+      match lexInt (c :: r) with
+      | some (i, []) => some (.int i)
+      | _ => Option.none
+
 /-! ## `make_param`: one Param object per paramkey and statement; JSON path (composite) parameters -/
 
 /-- `SQLBuilder.make_param` over the occurrences of one statement: `keys.get(paramkey)`; a new Param object - carrying `content`
